@@ -1,0 +1,271 @@
+//go:build verif
+
+package consensus
+
+// verif hook H2: lets a deterministic simulator drive the real FSM half of a
+// RaftNode (balloon, state, Apply/Snapshot/Restore, queries, backups, state
+// transfer endpoints) without a live hashicorp/raft instance, TCP listener or
+// gRPC dial. Only compiled with -tags verif.
+
+import (
+	"bytes"
+	"context"
+	"io"
+	"sync"
+
+	"github.com/hashicorp/raft"
+	"google.golang.org/grpc/metadata"
+
+	"github.com/bbva/qed/balloon"
+	"github.com/bbva/qed/crypto/hashing"
+	"github.com/bbva/qed/log"
+	"github.com/bbva/qed/protocol"
+	"github.com/bbva/qed/storage"
+)
+
+// SimEnv is the simulator's stand-in for *raft.Raft and the gRPC dial.
+type SimEnv interface {
+	// Propose plays the role of raft.Apply(data).{Error,Response}.
+	Propose(n *RaftNode, data []byte) (interface{}, error)
+	// Fetch plays the role of dialing the leader and calling FetchSnapshot.
+	Fetch(n *RaftNode, req *FetchSnapshotRequest) (ClusterService_FetchSnapshotClient, error)
+}
+
+var (
+	simMu   sync.Mutex
+	simEnvs = map[*RaftNode]SimEnv{}
+)
+
+func simEnvOf(n *RaftNode) (SimEnv, bool) {
+	simMu.Lock()
+	defer simMu.Unlock()
+	e, ok := simEnvs[n]
+	return e, ok
+}
+
+// NewSimRaftNode builds the FSM half of a RaftNode exactly as
+// NewRaftNodeWithLogger does and none of the network half.
+func NewSimRaftNode(id string, store storage.ManagedStore, snapshotsCh chan *protocol.Snapshot, logger log.Logger, env SimEnv) (*RaftNode, error) {
+	node := &RaftNode{
+		info:        &NodeInfo{NodeId: id},
+		snapshotsCh: snapshotsCh,
+		log:         logger,
+		done:        make(chan struct{}),
+	}
+	node.db = store
+	hasherF := hashing.NewSha256Hasher
+	node.hasherF = hasherF
+	var err error
+	node.balloon, err = balloon.NewBalloonWithLogger(store, hasherF, node.log.Named("balloon"))
+	if err != nil {
+		return nil, err
+	}
+	err = node.loadState()
+	if err != nil {
+		return nil, err
+	}
+	node.metrics = newRaftNodeMetrics(node)
+	simMu.Lock()
+	simEnvs[node] = env
+	simMu.Unlock()
+	return node, nil
+}
+
+// SimForget drops the simulator binding of a node that is gone.
+func SimForget(n *RaftNode) {
+	simMu.Lock()
+	delete(simEnvs, n)
+	simMu.Unlock()
+}
+
+// SimSetRunning makes the unchanged `n.raft != nil` test in Restore tell a live
+// install from the start-up restore. Must be set to false before Close.
+func (n *RaftNode) SimSetRunning(on bool) {
+	if on {
+		n.raft = new(raft.Raft)
+	} else {
+		n.raft = nil
+	}
+}
+
+// SimSetInfo fills the node info the handlers report.
+func (n *RaftNode) SimSetInfo(info *NodeInfo) { n.info = info }
+
+// SimState exposes the FSM state (last applied raft index, balloon version).
+func (n *RaftNode) SimState() (index, balloonVersion uint64) {
+	return n.state.Index, n.state.BalloonVersion
+}
+
+// SimBalloonVersion exposes balloon.Version() (number of events).
+func (n *RaftNode) SimBalloonVersion() uint64 { return n.balloon.Version() }
+
+// SimBalloon exposes the balloon (read-only use by oracles).
+func (n *RaftNode) SimBalloon() *balloon.Balloon { return n.balloon }
+
+func simPropose(n *RaftNode, cmd *command) (interface{}, error, bool) {
+	env, ok := simEnvOf(n)
+	if !ok {
+		return nil, nil, false
+	}
+	r, err := env.Propose(n, cmd.data)
+	return r, err, true
+}
+
+func simFetch(n *RaftNode, lastSeqNum, lastAppliedVersion uint64) (io.ReadCloser, error, bool) {
+	env, ok := simEnvOf(n)
+	if !ok {
+		return nil, nil, false
+	}
+	// same three-field request attemptToFetchSnapshot builds
+	stream, err := env.Fetch(n, &FetchSnapshotRequest{
+		LastAppliedVersion: lastAppliedVersion,
+		StartSeqNum:        n.db.LastWALSequenceNumber(),
+		EndSeqNum:          lastSeqNum})
+	if err != nil {
+		return nil, err, true
+	}
+	cr := &chunkReader{stream: stream, buf: new(bytes.Buffer), done: true}
+	return simReader{cr}, nil, true
+}
+
+type simReader struct{ *chunkReader }
+
+func (s simReader) Close() error { return s.stream.CloseSend() }
+
+// SimEncodeAdd encodes an add command exactly as AddBulk does.
+func SimEncodeAdd(digests []hashing.Digest) []byte {
+	cmd := newCommand(addEventCommandType)
+	cmd.encode(digests)
+	return cmd.data
+}
+
+// SimDecodeAdd decodes an add command as Apply does; ok=false for other types.
+func SimDecodeAdd(data []byte) (digests []hashing.Digest, ok bool, err error) {
+	cmd := newCommandFromRaft(data)
+	if cmd.id != addEventCommandType {
+		return nil, false, nil
+	}
+	err = cmd.decode(&digests)
+	return digests, true, err
+}
+
+// SimEncodeRaw builds a command with an arbitrary type byte and msgpack body.
+func SimEncodeRaw(id uint8, body interface{}) []byte {
+	cmd := newCommand(commandType(id))
+	cmd.encode(body)
+	return cmd.data
+}
+
+// SimResponse unpacks what Apply returned.
+func SimResponse(r interface{}) ([]*balloon.Snapshot, error) {
+	if r == nil {
+		return nil, nil
+	}
+	fr, ok := r.(*fsmResponse)
+	if !ok {
+		return nil, nil
+	}
+	if fr.err != nil {
+		return nil, fr.err
+	}
+	if fr.val == nil {
+		return nil, nil
+	}
+	return fr.val.([]*balloon.Snapshot), nil
+}
+
+// SimSnapshotPayload decodes the payload an FSM snapshot persisted.
+func SimSnapshotPayload(data []byte) (lastSeqNum, balloonVersion uint64, err error) {
+	var s fsmSnapshot
+	err = s.decode(data)
+	return s.LastSeqNum, s.BalloonVersion, err
+}
+
+// SimFsmStateCodec round-trips an fsmState through its stored encoding.
+func SimFsmStateCodec(index, version uint64) (uint64, uint64, error) {
+	b, err := (&fsmState{index, version}).encode()
+	if err != nil {
+		return 0, 0, err
+	}
+	var s fsmState
+	err = s.decode(b)
+	return s.Index, s.BalloonVersion, err
+}
+
+// SimVersionMetadataCodec round-trips a VersionMetadata.
+func SimVersionMetadataCodec(prev, next uint64) (uint64, uint64, error) {
+	b, err := (&VersionMetadata{prev, next}).encode()
+	if err != nil {
+		return 0, 0, err
+	}
+	var m VersionMetadata
+	err = m.decode(b)
+	return m.PreviousVersion, m.NewVersion, err
+}
+
+// SimSnapshotCodec round-trips an fsmSnapshot.
+func SimSnapshotCodec(seq, version uint64) (uint64, uint64, error) {
+	b, err := (&fsmSnapshot{seq, version}).encode()
+	if err != nil {
+		return 0, 0, err
+	}
+	return SimSnapshotPayload(b)
+}
+
+// SimServerStream is the server half of an in-memory FetchSnapshot stream.
+type SimServerStream struct {
+	// OnSend receives every chunk; returning an error fails the stream.
+	OnSend func(content []byte) error
+}
+
+func (s *SimServerStream) Send(c *Chunk) error {
+	return s.OnSend(append([]byte{}, c.Content...))
+}
+func (s *SimServerStream) SetHeader(metadata.MD) error  { return nil }
+func (s *SimServerStream) SendHeader(metadata.MD) error { return nil }
+func (s *SimServerStream) SetTrailer(metadata.MD)       {}
+func (s *SimServerStream) Context() context.Context     { return context.Background() }
+func (s *SimServerStream) SendMsg(m interface{}) error  { return nil }
+func (s *SimServerStream) RecvMsg(m interface{}) error  { return nil }
+
+// SimClientStream is the client half: it replays chunks, then Err (io.EOF if nil).
+type SimClientStream struct {
+	Chunks [][]byte
+	Err    error
+	// OnRecv, if set, is called before each Recv (chunk index); it may park or panic.
+	OnRecv func(i int)
+	i      int
+}
+
+func (s *SimClientStream) Recv() (*Chunk, error) {
+	if s.OnRecv != nil {
+		s.OnRecv(s.i)
+	}
+	if s.i >= len(s.Chunks) {
+		if s.Err == nil {
+			return nil, io.EOF
+		}
+		return nil, s.Err
+	}
+	c := &Chunk{Content: s.Chunks[s.i]}
+	s.i++
+	return c, nil
+}
+func (s *SimClientStream) Header() (metadata.MD, error) { return nil, nil }
+func (s *SimClientStream) Trailer() metadata.MD         { return nil }
+func (s *SimClientStream) CloseSend() error             { return nil }
+func (s *SimClientStream) Context() context.Context     { return context.Background() }
+func (s *SimClientStream) SendMsg(m interface{}) error  { return nil }
+func (s *SimClientStream) RecvMsg(m interface{}) error  { return nil }
+
+// SimRaftLog is the real rocksdb-backed raft log store.
+type SimRaftLog interface {
+	raft.LogStore
+	raft.StableStore
+	Close() error
+}
+
+// NewSimRaftLog opens the real raftLog with the options NewRaftNodeWithLogger uses.
+func NewSimRaftLog(path string, sync bool) (SimRaftLog, error) {
+	return newRaftLogOpts(raftLogOptions{Path: path, NoSync: !sync, EnableStatistics: true})
+}
